@@ -2,6 +2,7 @@
 abstract kernels (coq/Geom/Assembly.v) against the real assembly on generated head models."""
 import os, sys, json, math, time
 import core, ombuild, models
+import c10_ops
 
 PROP = "C10"
 
@@ -85,6 +86,7 @@ def write_models(ck, specs):
         rng = random.Random(seed)
         m, _ = make_model(rng, kind, level)
         models.write_model(m, os.path.join(ck.workdir, "m%d" % k), fmt="tri")
+        c10_ops.write_extras(random.Random(seed + 1), kind, m, os.path.join(ck.workdir, "m%d" % k))
         infos.append(m)
     return infos
 
@@ -221,6 +223,23 @@ def main(replay=None):
                          "N computed from an injected integer S (pair %d of %s, S seed %d): entry (%d,%d) = %r, the model of operators.h:131-146 gives %r; %d entries differ; %s"
                          % (pk, specs[k][0], sd, i, j, b, a, len(bad), describe_entry(shape, i, j)),
                          dict(kind="nblock", specs=[specs[k]], pair=pk, sseed=sd, entry=[i, j], model=a, impl=b))
+    # ---- widened: the other assembly functions (library kernels), then everything with injected integer kernels
+    hbs = None
+    try:
+        hbs = os.path.join(bdir, "h_c10s")
+        srcs = os.path.join(core.VERIF, "harness", "h_c10s.cpp")
+        deps = [srcs, os.path.join(core.VERIF, "harness", "c10_ops.h"), os.path.join(core.VERIF, "harness", "wire.h")]
+        if not os.path.exists(hbs) or os.path.getmtime(hbs) < max(os.path.getmtime(d) for d in deps):
+            ombuild.build_harness(bdir, srcs, hbs, extra=["-I%s/OpenMEEG/src" % ombuild.REPO])
+    except RuntimeError as e:
+        ck.violation("harness-build (injected kernels)", "assembleHeadMat.cpp / assembleSourceMat.cpp / operators.h no longer compile with synthetic kernel classes: %s" % e,
+                     dict(kind="build", error=str(e)), found_input=False); hbs = None
+    desc = lambda z, i, j: describe_entry(z[1:-1], i, j)
+    okids = [k for k in small if res[k]["status"] == "ok"]
+    n_ops, e_ops, err_ops = c10_ops.run_ops(ck, hb, specs, okids, [4, 5, 6, 7, 8], False, 1e-11, compare_packed, desc)
+    n_syn = e_syn = 0; err_syn = []
+    if hbs:
+        n_syn, e_syn, err_syn = c10_ops.run_ops(ck, hbs, specs, okids, [9, 4, 5, 7], True, 1e-13, compare_packed, desc)
     # ---- (c) numeric spec checks (measured): potential row sums, conditioning after deflation, A*inv(A)=I
     lines = ["c10 3 %d %d" % (k, 1 if specs[k][2] else 0) for k in ids]
     extra = []
@@ -251,5 +270,6 @@ def main(replay=None):
     ck.cov.update(evaluations=len(specs), distinct_nontrivial=len(set(specs)),
                   rule="generated head models (nested 1-4, split hemispheres with shared vertices, sibling inclusions, non-conductive inclusions/layers, random sigma, both orderings); distinct = distinct (topology, level, ordering, seed)",
                   samples=samples, op_distribution=dist, entries_compared=nentries, nblock_cases=len(ncases), nblock_entries_compared=nblock_entries,
-                  numeric_measured=numeric, ifirst_sentinel_picks_other_mesh=sentinel_cases, traces_validated_against_impl=len(specs) + len(ncases))
+                  numeric_measured=numeric, ops_cases=n_ops, ops_entries_compared=e_ops, ops_assert_outcomes=err_ops,
+                  injected_kernel_cases=n_syn, injected_kernel_entries_compared=e_syn, injected_kernel_assert_outcomes=err_syn, ifirst_sentinel_picks_other_mesh=sentinel_cases, traces_validated_against_impl=len(specs) + len(ncases))
     return ck.finish()
